@@ -3,12 +3,14 @@ from harness.props.common import *
 
 THEOREM_NOTE = ("Props/C15.lean: draw - height, other rows, row length, cells inside the rectangle = source, cells outside unchanged or blank "
                 "padding, cursor; write - typewriter position = path, i-th character at i-th path position, path strictly increasing in "
-                "reading order and within [col, col+width), frame, empty text - for every buffer, source, position, text, width")
+                "reading order and within [col, col+width), frame, empty text - for every buffer, source, position, text, width"
+                ' Props/C15b.lean: ColumnWidget composition - every character of every widget at its place, nothing else but blanks, disjoint rectangles, without assuming widgets respect their width.')
 ASSUMPTIONS = ["A-STR: list slice assignment with non-negative indices as modelled",
                "domain: row, col >= 0 (the API documents them as positions); negative columns are outside C15"]
 RULE = ("exhaustive tiny grids (targets and sources of <= 2 rows x <= 2 cells over {x,' '}, positions 0..3) plus seeded random targets "
         "<= 6x9, sources <= 5x7, positions 0..11 (inside, at the edge of, beyond the buffer), default/explicit position, both block "
-        "modes; writes of texts over {a,b,' ',newline} with widths None/-1..6 and max_width; non-trivial = the operation changes the buffer")
+        "modes; writes of texts over {a,b,' ',newline} with widths None/-1..6 and max_width; non-trivial = the operation changes the buffer"
+        " Later rounds: sequences of 2..5 draws / writes on one object (a source may be drawn twice; sources unchanged afterwards); ColumnWidget composition recomputed from the widgets' own renderings.")
 LEAN_MODULES = ['C15', 'C15b']
 
 
